@@ -177,3 +177,27 @@ Theorem C18_source_chunk_arith : forall L N,
   rejects chunks_from_slice_zero_guard (env1 "slice.len" L) N = negb (L =? 0) /\
   fails_by_panic chunks_from_slice_zero_guard = true.
 Proof. exact tie_chunks_arith. Qed.
+
+(* ---- T1: the one-expression bodies this property's code consists of besides the modelled core, as they stand
+        in the source now (coq/gen/GenSigs.v gen_thin_bodies) ---- *)
+From Coq Require Import String.
+From GA Require Import SigTie.
+From GAGen Require Import GenSigs.
+Local Open Scope string_scope.
+
+Theorem C18_source_thin_bodies :
+  thin_of "GenericArray<T,N>" "len" = Some "N :: USIZE" /\
+  thin_of "GenericArray<T,N>" "from_array" = Some "unsafe { crate :: const_transmute (value) }" /\
+  thin_of "GenericArray<T,N>" "into_array" = Some "unsafe { crate :: const_transmute (self) }" /\
+  thin_of "GenericArray<T,N>" "uninit" = Some "unsafe { MaybeUninit :: < GenericArray < MaybeUninit < T > , N > > :: uninit () . assume_init () }" /\
+  thin_of "GenericArray<T,N>" "assume_init" = Some "const_transmute :: < _ , MaybeUninit < GenericArray < T , N > > > (array) . assume_init ()".
+Proof. repeat split. Qed.
+
+(* const_transmute as it stands in src/lib.rs now: size test, then a by-value union reinterpretation *)
+Theorem C18_source_const_transmute_body :
+  small_of "" "const_transmute" =
+    Some ["if mem :: size_of :: < A > () != mem :: size_of :: < B > () { panic ! (""Size mismatch for generic_array::const_transmute"") ; }";
+          "# [repr (C)] union Union < A , B > { a : ManuallyDrop < A > , b : ManuallyDrop < B > , }";
+          "let a = ManuallyDrop :: new (a) ;";
+          "ManuallyDrop :: into_inner (Union { a } . b)"].
+Proof. exact tie_const_transmute_body. Qed.
